@@ -80,6 +80,15 @@ pub fn union_reinterpret(a: Bits, size_b: usize) -> (b: Bits)
     ensures b.size == size_b,
 { unimplemented!() }
 
+// mem::transmute of a reference to a reference of another type with the same total extent: the address is unchanged
+impl Sl {
+    #[verifier::external_body]
+    pub fn retype_ref(self, len: usize, stride: usize) -> (r: Sl)
+        requires len * stride == self.len * self.stride,        // mem::transmute checks the (thin) pointer size only; the extents must agree
+        ensures r.base == self.base, r.off == self.off, r.len == len, r.stride == stride,
+    { unimplemented!() }
+}
+
 
 // ===== extracted: src/lib.rs =====
 
@@ -305,7 +314,8 @@ pub fn union_reinterpret(a: Bits, size_b: usize) -> (b: Bits)
     // extracted from src/lib.rs:997  `pub const unsafe fn const_transmute<A, B>(a: A) -> B`
     pub fn const_transmute(a: Bits, size_b: usize) -> (ret: PanicOr<Bits>)
         ensures
-            ret is Panic <==> a.size != size_b, /*OB:const_transmute.post.panics-iff-sizes-differ:C02,C10*/
+            ret is Panic <==> a.size != size_b, /*OB:const_transmute.post.panics-iff-sizes-differ:C02,C10,C11*/
+            ret is Ret ==> ret->Ret_0.size == size_b, /*OB:const_transmute.post.reinterprets-the-same-bytes:C02,C11*/
     {
         if a.size != size_b {
             return PanicOr::Panic;
@@ -354,6 +364,103 @@ pub fn union_reinterpret(a: Bits, size_b: usize) -> (b: Bits)
         }
     }
     proof fn reach_split_mut<N: ArrayLength, K: ArrayLength>(self_: Sl) requires self_.stride == N::n(), self_.len == 1, self_.valid(), K::n() <= N::n(), { assert(false); } /*OB:canary.split_mut:*/
+
+    // extracted from src/sequence.rs:603  `fn flatten(self) -> Self::Output`
+    pub fn flatten_owned<N: ArrayLength, M: ArrayLength>(a: Bits) -> (ret: PanicOr<Bits>)
+        requires
+            a.size == N::n() * M::n()  /* M arrays of N elements: extent N*M elements (lemma_nested, unit layout) */,
+            N::n() * M::n() <= usize::MAX,
+        ensures
+            ret is Ret && ret->Ret_0.size == N::n() * M::n(), /*OB:flatten_owned.post.never-panics-same-extent:C11*/
+    {
+        {
+            const_transmute(a, (N::usize_() * M::usize_()))
+        }
+    }
+    proof fn reach_flatten_owned<N: ArrayLength, M: ArrayLength>(a: Bits) requires a.size == N::n() * M::n()  /* M arrays of N elements: extent N*M elements (lemma_nested, unit layout) */, N::n() * M::n() <= usize::MAX, { assert(false); } /*OB:canary.flatten_owned:*/
+
+    // extracted from src/sequence.rs:645  `fn unflatten(self) -> Self::Output`
+    pub fn unflatten_owned<NM: ArrayLength, N: ArrayLength>(a: Bits) -> (ret: PanicOr<Bits>)
+        requires
+            a.size == NM::n(),
+            N::n() > 0,
+            NM::n() % N::n() == 0,
+        ensures
+            ret is Ret && ret->Ret_0.size == NM::n(), /*OB:unflatten_owned.post.never-panics-same-extent:C11*/
+    {
+        {
+            ({ proof { vstd::arithmetic::div_mod::lemma_fundamental_div_mod(NM::n() as int, N::n() as int); assert((NM::n() / N::n()) * N::n() == N::n() * (NM::n() / N::n())) by (nonlinear_arith); } const_transmute(a, ((NM::usize_() / N::usize_()) * N::usize_())) })
+        }
+    }
+    proof fn reach_unflatten_owned<NM: ArrayLength, N: ArrayLength>(a: Bits) requires a.size == NM::n(), N::n() > 0, NM::n() % N::n() == 0, { assert(false); } /*OB:canary.unflatten_owned:*/
+
+    // extracted from src/sequence.rs:617  `fn flatten(self) -> Self::Output`
+    pub fn flatten_ref<N: ArrayLength, M: ArrayLength>(self_: Sl) -> (ret: Sl)
+        requires
+            self_.len == M::n(),
+            self_.stride == N::n(),
+            self_.valid(),
+        ensures
+            ret.base == self_.base && ret.off == self_.off, /*OB:flatten_ref.post.same-address:C11*/
+            ret.len == 1 && ret.stride == N::n() * M::n() && ret.end() == self_.end(), /*OB:flatten_ref.post.same-extent-N-times-M-elements:C11*/
+    {
+        {
+            ({ assert(N::n() * M::n() == M::n() * N::n()) by (nonlinear_arith); self_.retype_ref(1, N::usize_() * M::usize_()) })
+        }
+    }
+    proof fn reach_flatten_ref<N: ArrayLength, M: ArrayLength>(self_: Sl) requires self_.len == M::n(), self_.stride == N::n(), self_.valid(), { assert(false); } /*OB:canary.flatten_ref:*/
+
+    // extracted from src/sequence.rs:659  `fn unflatten(self) -> Self::Output`
+    pub fn unflatten_ref<NM: ArrayLength, N: ArrayLength>(self_: Sl) -> (ret: Sl)
+        requires
+            self_.len == 1,
+            self_.stride == NM::n(),
+            self_.valid(),
+            N::n() > 0,
+            NM::n() % N::n() == 0,
+        ensures
+            ret.base == self_.base && ret.off == self_.off, /*OB:unflatten_ref.post.same-address:C11*/
+            ret.len == NM::n() / N::n() && ret.stride == N::n() && ret.end() == self_.end(), /*OB:unflatten_ref.post.same-extent-rows-of-N:C11*/
+    {
+        {
+            ({ proof { vstd::arithmetic::div_mod::lemma_fundamental_div_mod(NM::n() as int, N::n() as int); assert((NM::n() / N::n()) * N::n() == N::n() * (NM::n() / N::n())) by (nonlinear_arith); } self_.retype_ref(NM::usize_() / N::usize_(), N::usize_()) })
+        }
+    }
+    proof fn reach_unflatten_ref<NM: ArrayLength, N: ArrayLength>(self_: Sl) requires self_.len == 1, self_.stride == NM::n(), self_.valid(), N::n() > 0, NM::n() % N::n() == 0, { assert(false); } /*OB:canary.unflatten_ref:*/
+
+    // extracted from src/sequence.rs:631  `fn flatten(self) -> Self::Output`
+    pub fn flatten_mut<N: ArrayLength, M: ArrayLength>(self_: Sl) -> (ret: Sl)
+        requires
+            self_.len == M::n(),
+            self_.stride == N::n(),
+            self_.valid(),
+        ensures
+            ret.base == self_.base && ret.off == self_.off, /*OB:flatten_mut.post.same-address:C11*/
+            ret.len == 1 && ret.stride == N::n() * M::n() && ret.end() == self_.end(), /*OB:flatten_mut.post.same-extent-N-times-M-elements:C11*/
+    {
+        {
+            ({ assert(N::n() * M::n() == M::n() * N::n()) by (nonlinear_arith); self_.retype_ref(1, N::usize_() * M::usize_()) })
+        }
+    }
+    proof fn reach_flatten_mut<N: ArrayLength, M: ArrayLength>(self_: Sl) requires self_.len == M::n(), self_.stride == N::n(), self_.valid(), { assert(false); } /*OB:canary.flatten_mut:*/
+
+    // extracted from src/sequence.rs:673  `fn unflatten(self) -> Self::Output`
+    pub fn unflatten_mut<NM: ArrayLength, N: ArrayLength>(self_: Sl) -> (ret: Sl)
+        requires
+            self_.len == 1,
+            self_.stride == NM::n(),
+            self_.valid(),
+            N::n() > 0,
+            NM::n() % N::n() == 0,
+        ensures
+            ret.base == self_.base && ret.off == self_.off, /*OB:unflatten_mut.post.same-address:C11*/
+            ret.len == NM::n() / N::n() && ret.stride == N::n() && ret.end() == self_.end(), /*OB:unflatten_mut.post.same-extent-rows-of-N:C11*/
+    {
+        {
+            ({ proof { vstd::arithmetic::div_mod::lemma_fundamental_div_mod(NM::n() as int, N::n() as int); assert((NM::n() / N::n()) * N::n() == N::n() * (NM::n() / N::n())) by (nonlinear_arith); } self_.retype_ref(NM::usize_() / N::usize_(), N::usize_()) })
+        }
+    }
+    proof fn reach_unflatten_mut<NM: ArrayLength, N: ArrayLength>(self_: Sl) requires self_.len == 1, self_.stride == NM::n(), self_.valid(), N::n() > 0, NM::n() % N::n() == 0, { assert(false); } /*OB:canary.unflatten_mut:*/
 
 proof fn canary() { assert(false); } /*OB:canary:*/
 } // verus!
